@@ -175,6 +175,13 @@ class FuseSuccessiveReluClip(FuseSuccessiveClipRelu):
     def pattern(self, op, x):
         return op.Relu(op.Clip(x, _allow_other_inputs=True, _outputs=["out_first_clip"]))
 
+    def compute_clip_min_max(self, first_clip_node: ir.Node, _):
+        min_clip, max_clip = super().compute_clip_min_max(first_clip_node, _)
+        if max_clip is not None:
+            # Relu is applied last: a negative upper bound yields 0, not the bound.
+            max_clip = ir.tensor(np.maximum(0.0, max_clip.numpy()).astype(max_clip.numpy().dtype))
+        return min_clip, max_clip
+
 
 successive_relu_rule = FuseSuccessiveRelu().rule()
 successive_clip_rule = FuseSuccessiveClip().rule()
